@@ -71,6 +71,8 @@ def class_spec(draw, idx, prev):
         # False | True (both hooks) | "set" (only __setstate__, written to accept every state shape CPython hands out)
         "user_state": draw(st.sampled_from([False, False, True, "set"])),
         "poison_before": draw(st.sampled_from([False, False, False, True])),
+        # the plain dataclass is used (an instance copied) before `slotted` is applied to it in function form
+        "preuse": draw(st.sampled_from([False, False, True])),
     }
 
 
@@ -160,7 +162,15 @@ def emit(specs, slotted: bool) -> str:
             body.append(_SETSTATE % {"first": repr(allf[0]) if allf else "None"})
         if not body:
             body.append("    pass")
-        cls_src = f"{deco}@dataclasses.dataclass({_flags(s)})\nclass {s['name']}{base_expr}:\n" + "\n".join(body) + "\n"
+        if s.get("preuse"):
+            cls_src = f"@dataclasses.dataclass({_flags(s)})\nclass {s['name']}{base_expr}:\n" + "\n".join(body) + "\n"
+            cls_src += (f"import copy as _copy\ntry:\n    _copy.copy({s['name']}(*{_args(s, 9)!r}))\n"
+                        f"except Exception as e:\n    ERRORS.append(('preuse', {i}, type(e).__name__ + ': ' + str(e)))\n")
+            if slotted:
+                fn = f"_deco_{s['dict']}_{s['weakref']}" if s.get("shared_decorator") else f"classes.slotted(dict={s['dict']}, weakref={s['weakref']})"
+                cls_src += f"{s['name']} = {fn}({s['name']})\n"
+        else:
+            cls_src = f"{deco}@dataclasses.dataclass({_flags(s)})\nclass {s['name']}{base_expr}:\n" + "\n".join(body) + "\n"
         out.append("try:\n" + "\n".join("    " + ln for ln in cls_src.splitlines()) +
                    f"\n    CLASSES.append(({i}, {s['name']}))\nexcept Exception as e:\n    ERRORS.append(('decorate', {i}, type(e).__name__ + ': ' + str(e)))\n")
     return "\n".join(out)
@@ -280,6 +290,12 @@ def check_program(specs, col, tag):
             if s.get("shared_decorator"):
                 col.label("shared-decorator-object")
             col.label(f"user-state-hooks:{s['user_state']},frozen={s['frozen']}")
+            if s.get("preuse"):
+                col.label("used-before-decoration")
+        for _, i, msg in [e for e in s_.ERRORS if e[0] == "preuse"]:
+            # copying an instance of the not yet decorated class worked in the plain module (no ERRORS there)
+            col.violation("behaves-like-original", case, f"class #{i} {specs[i]['name']} (before its own decoration, bases already slotted): copy raised {msg}",
+                          bucket=f"copy-before-decoration|base={specs[i]['base']}|{msg.split(':')[0]}")
         derr = [e for e in s_.ERRORS if e[0] == "decorate"]
         for _, i, msg in derr:
             col.violation("decoration-never-raises", case, f"class #{i} {specs[i]['name']}: {msg}",
